@@ -207,7 +207,7 @@ Section Total.
       destruct a as [|aop apos aargs aout]; [eexists; reflexivity|].
       destruct (asserted T univ null union inter single (cond_of (SKnown aop apos aargs aout))) as [tv fv].
       subst nx. destruct (b_next pb) as [|d [|j r']]; [destruct Hs| |].
-      + destruct (ins_next (fn_prog f) (last (b_ins pb) 0)) as [[|x1 [|x2 xr]]|];
+      + destruct (branch_to_next (fn_prog f) _ (last (b_ins pb) 0));
           try (eexists; reflexivity); destruct (Nat.eqb s d); eexists; reflexivity.
       + destruct (Nat.eqb s d); [eexists; reflexivity|]. destruct (Nat.eqb s j); eexists; reflexivity.
     - (* bnz *)
@@ -218,7 +218,7 @@ Section Total.
       destruct a as [|aop apos aargs aout]; [eexists; reflexivity|].
       destruct (asserted T univ null union inter single (cond_of (SKnown aop apos aargs aout))) as [tv fv].
       subst nx. destruct (b_next pb) as [|d [|j r']]; [destruct Hs| |].
-      + destruct (ins_next (fn_prog f) (last (b_ins pb) 0)) as [[|x1 [|x2 xr]]|];
+      + destruct (branch_to_next (fn_prog f) _ (last (b_ins pb) 0));
           try (eexists; reflexivity); destruct (Nat.eqb s d); eexists; reflexivity.
       + destruct (Nat.eqb s d); [eexists; reflexivity|]. destruct (Nat.eqb s j); eexists; reflexivity.
   Qed.
